@@ -11,6 +11,13 @@ C12_SIGS = {"l2-moved-on-nonowner-loss", "l2-moved-between-survivors",
             "l2-shared-same-first-differs", "l2-elect-shared-nonfirst-address"}
 
 
+# several-speakers history part (group spk: harness/speaker/zz_verif_spk_test.go, TestVerifSpkMulti):
+# one real controller per node fed the same events, C04 at quiescence
+MULTI_SIGS = {"l2-two-announcers-after-node-flip", "l2-announcers-differ-from-election"}
+C04_SIGS |= MULTI_SIGS
+C12_SIGS |= MULTI_SIGS
+
+
 def run(ctx, prop, sigs):
     propfile = "Properties/%s.v" % prop
     ok = ctx.coq_build([propfile] + COQ_FILES)
@@ -42,6 +49,21 @@ def run(ctx, prop, sigs):
                 state["stats"][r["k"]] = state["stats"].get(r["k"], 0) + r["v"]
         if not ok2 and not any("does not build" in c for c in ctx.corr_broken):
             ctx.corr_broken.append("harness TestVerifSpeakerList failed: " + log2[-1200:])
+    # histories on several real speakers (node condition / label flips, ignoreExcludeLB with labelled nodes,
+    # service events, speaker-list and advertisement changes): the set of nodes announcing an address over
+    # layer 2 must be exactly {the node elected among the currently eligible ones}
+    import os
+    ov = {"internal/layer2/zz_verif_spk.go": os.path.join(os.path.dirname(os.path.dirname(os.path.abspath(__file__))),
+                                                         "harness", "internal", "layer2", "zz_verif_spk.go")}
+    recs, ok3, log3 = ctx.go_harness("speaker", ["zz_verif_bgp_test.go", "zz_verif_spk_test.go"], "TestVerifSpkMulti$",
+                                     n=30 if ctx.tier == "quick" else 600, tag="multi", extra_overlay=ov)
+    for r in recs:
+        if r.get("t") == "fail" and r.get("sig") in sigs:
+            ctx.oracle_fail(r["sig"], r.get("what", ""), r.get("replay"))
+        elif r.get("t") == "stat":
+            state["stats"][r["k"]] = state["stats"].get(r["k"], 0) + r["v"]
+    if not ok3 and not any("does not build" in c for c in ctx.corr_broken):
+        ctx.corr_broken.append("harness TestVerifSpkMulti failed: " + log3[-1200:])
     state["cases"] = cases
     mism = []
     if cases and ok:
